@@ -34,7 +34,7 @@ def _match_d70(stream, line, impl, model):
     if not line.startswith("fz expr schema") or not impl.startswith("CRASH"):
         return False
     text = bytes.fromhex(line.split()[3])
-    return b'"$ref"' in text and "stack-overflow" in impl
+    return b'"$ref"' in text and ("stack-overflow" in impl or "DEADLYSIGNAL" in impl or "SEGV" in impl)
 
 
 @vlib.known_matcher("D73")
@@ -155,7 +155,7 @@ def dec_lines(rng, scale):
             opts.append("c#")
         if rng.random() < 0.2:
             opts.append("x")
-        out.append("fz dec csv %s %s" % (text.hex(), " ".join(opts)))
+        out.append("fz dec csv %s %s" % (text.hex() or "-", " ".join(opts)))
     # TOON
     seeds = [b"a: 1\nb:\n  c: x\n  d[2]: 1,2", b"[3]: a,b,c", b"items[2]{id,name}:\n  1,Ann\n  2,Bob", b"[2]:\n  - a: 1\n    b: 2\n  - 5", b"k[2|]: 1|2", b'"q\\"": "x\\n"', b"a[0]:",
              b"a:\n\tb: 1", b"[1]:\n  - [2]: 1,2", b"x: -0.5e3", b"deep:\n  a:\n    b:\n      c:\n        d: 1"]
@@ -203,8 +203,8 @@ def expr_lines(rng, scale):
     uris = [b"http://a/b/c/d;p?q#f", b"", b"//", b"a:", b":", b"http://[::1]:80/", b"http://[::1", b"http://a:99999999999/", b"http://a:-1/", b"%", b"%zz", b"http://u:p@h:1/p?q#f", b"../../../g", b"g;x=1/../y",
             b"http://a/b/../../../../c", b"file:///", b"urn:x:y", b"http://\xc3\xa9/", b"#", b"?", b"a b", b"http://a/%00", b"HTTP://A/%7e", b"x" * 3000, b"http://a/" + b"../" * 500]
     for u in uris:
-        out.append("fz expr uri %s |" % u.hex())
-        out.append("fz expr uri %s |" % mut(u).hex())
+        out.append("fz expr uri %s |" % (u.hex() or "-"))
+        out.append("fz expr uri %s |" % (mut(u).hex() or "-"))
     for _ in range(250 * scale):
         draft = rng.choice(sg.DRAFTS)
         g = sg.G(rng, draft)
